@@ -4,6 +4,7 @@ import (
 	"bytes"
 	"context"
 	"fmt"
+	"sync"
 	"time"
 
 	bs "github.com/danthegoodman1/bloomsearch"
@@ -91,12 +92,33 @@ func runC24(rc *RunCtx, i int) {
 		}
 		e := c.w.Eng[qr.Intn(len(c.w.Eng))]
 		l0 := len(c.log.Snapshot())
+		// every fifth query meets one transient store failure (the n-th OpenFile or Read of the
+		// query fails once): the query then reports an error, but what it reads is judged as ever
+		faulted := false
+		if k%5 == 4 {
+			kind := core.Pick(qr, []string{"OpenFile", "OpenFile", "Read"})
+			base, nth := c.log.Count(kind), qr.Range(0, 5)
+			var fmu sync.Mutex
+			c.log.Plan = &stores.Plan{Decide: func(cl *stores.Call) stores.Action {
+				fmu.Lock()
+				defer fmu.Unlock()
+				if cl.Kind == kind && cl.N == base+nth && !faulted {
+					faulted = true
+					return stores.Action{Fail: true}
+				}
+				return stores.Action{}
+			}}
+		}
 		ctx, cancel := context.WithTimeout(context.Background(), 60*time.Second)
 		res := world.RunQuery(ctx, e, q)
 		cancel()
+		c.log.Plan = nil
 		rc.Res.Eval(1)
 		rc.Res.Count("queries", 1)
-		if res.QErr != nil || res.Err != nil {
+		if faulted {
+			rc.Res.Count("queries_with_transient_store_failure", 1)
+		}
+		if (res.QErr != nil || res.Err != nil) && !faulted {
 			rc.Violate(i, "query-error-on-healthy-stores", "", fmt.Sprintf("%v %v", res.QErr, res.Err), map[string]any{"query": queryJSON(q), "scenario": c.d})
 			continue
 		}
